@@ -75,7 +75,7 @@ func emittingLoggers(c *Ctx) (map[*ssa.Function]bool, string, bool) {
 				}
 				k, _ := constant.Int64Val(constant.ToInt(kv))
 				// is oc only reachable through the true edge?
-				r1, _ := reach(f, nil, isInstr(oc), nil, map[edge]bool{{b.Index, 0}: true})
+				r1, _ := reach(f, nil, isInstr(oc), nil, map[edge]bool{{b.Index, 0, 0}: true})
 				if !r1 {
 					gated = true
 					if (bo.Op == token.LEQ && defv <= k) || (bo.Op == token.LSS && defv < k) {
